@@ -56,6 +56,27 @@ Theorem C16_steady_state_zero : forall c st s f,
 Proof. exact steady_state_zero. Qed.
 Print Assumptions C16_steady_state_zero.
 
+(* The same, spelled out over the classes the measurement sweeps (harness/cmd/c16: every PayloadID class 1..29, carried
+   over IPv4 and over IPv6, x source class x host state): for an error-free frame of ANY PayloadID class the counter
+   is zero when (1) the source is tracked and online; (2) it carries our own MAC; (3) its source MAC is a group
+   address; (4) it is IPv4 with a source outside the home LAN; (5) it is IPv6 with a source that is not link-local
+   and either not global unicast (multicast, ::, ::1) or global unicast behind the router MAC; (6) it is neither IP
+   nor ARP.  Excluded because they DO allocate (C16_not_steady_allocates): a source tracked by rule (LAN IPv4 / ARP
+   sender, IPv6 link-local from any MAC, IPv6 global from a non-router MAC) that is newly seen or offline; and frames
+   Parse rejects (fmt.Errorf inside the failing IsValid).  ARP senders outside the LAN: C16_tracked_only_by_rule. *)
+Theorem C16_zero_alloc_classes : forall c st s f,
+  parse c s = Ok f ->
+  (forall k, f_host f = Some k -> st k = TrackedOnline)
+  \/ a_mac (f_src f) = c_hostmac c
+  \/ is_unicast_mac (a_mac (f_src f)) = false
+  \/ ((0 < f_off4 f)%nat /\ lan_contains c (a_ip (f_src f)) = false)
+  \/ ((0 < f_off6 f)%nat /\ ip6_is_llu (a_ip (f_src f)) = false /\
+      (ip6_is_gu (a_ip (f_src f)) = false \/ bytes_eqb (a_mac (f_src f)) (c_routermac c) = true))
+  \/ (f_off4 f = 0%nat /\ f_off6 f = 0%nat /\ f_id f <> PayloadARP) ->
+  parse_allocs c st s = Ok 0%nat.
+Proof. exact zero_alloc_classes. Qed.
+Print Assumptions C16_zero_alloc_classes.
+
 (* "untracked by rule": frames sent with our own MAC, frames with a group source MAC, IPv4/ARP senders outside the
    home LAN and global IPv6 sources behind the router MAC are never handed to the host table. *)
 Theorem C16_own_mac_untracked : forall c s f,
